@@ -152,6 +152,8 @@ class C13(Prop):
             "cases always evaluate console.log/console.hex in conditions, one in four with a 3-10 ms logger.  Non-trivial: hist with a clone and a "
             "state-changing operation; hash with a repeated range; conc with >= 2 threads; seq with >= 2 different inputs; nest where an inner scan really ran; script with >= 2 scans; distinct by content.")
     TRUSTED = ["Coq 8.16.1 kernel + vm_compute",
+               "translators/static_state.py + static_state_reviewed.json (text-level inventory of static / thread_local "
+               "/ interior-mutable state of boreal/src and boreal-parser/src; the reviewed list is a human judgement)",
                "harness/src/bin/c13.rs (runs the real Scanner API; probe scans, tagged console callbacks, thread "
                "scope with barrier and seeded yields)",
                "vlib/props/c13.py (decodes console messages / rule verdicts of the probe scan into the observation "
@@ -178,6 +180,11 @@ class C13(Prop):
         "module user data values are opaque and immutable (behind Arc); a user type with interior mutability is "
         "outside the property",
     ]
+
+    def translators(self, ctx):
+        # the inventory of static / thread_local / interior-mutable state of /repo must be the reviewed one
+        from translators import static_state
+        return static_state.run(core.REPO, core.VERIF)
 
     # ================================================================ generation: hist
     def gen_value(self, rng, kind):
@@ -454,6 +461,8 @@ class C13(Prop):
         lines.append('rule e0 { condition: ext_i == 5 and ext_s contains "ab" and ext_b }')
         expect["e0"] = ("ext",)
         lines.append('rule e1 { strings: $a = "needle1" condition: #a > ext_i }')
+        # strings that occur many times: with a low string_max_nb_matches each reaches its limit early in the scan
+        lines.append('rule lim { strings: $a = "a" $d = /[0-9]/ $s = " " $n = "needle" nocase condition: any of them }')
 
         def gen_syms():
             return [{"name": "ext_i", "int": rng.choice([0, 1, 5, 5, -3])},
@@ -469,8 +478,12 @@ class C13(Prop):
             return p
 
         base_params, base_symbols = gen_p(), gen_syms()
+        # half of the cases: StringReachedMatchLimit events enabled with a low limit (the events, their order and
+        # their number are part of the result of a callback scan)
+        limits = rng.chance(1, 2)
         for j in jobs:
-            j["api"] = rng.choice(["list", "list", "callback", "frag"])
+            j["api"] = rng.choice(["list", "callback", "callback", "callback", "frag"] if limits
+                                  else ["list", "list", "callback", "frag"])
             if j["api"] == "frag":
                 j["piece"] = rng.choice([37, 64, 100, 256, 4096])
             if mode == "clones":
@@ -478,9 +491,13 @@ class C13(Prop):
                 j["symbols"] = gen_syms()
             if j["api"] == "callback":
                 ev = rng.choice([1, 3, 5, 7])
-                (j.get("params") or base_params)["events"] = ev
+                tgt = j.get("params") or base_params
+                tgt["events"] = ev
+                if limits:
+                    tgt["events"] = ev | 16
+                    tgt["string_max_nb_matches"] = rng.choice([1, 2, 3, 5])
         if mode == "shared" and any(j["api"] == "callback" for j in jobs):
-            base_params["events"] = rng.choice([1, 3, 7])
+            base_params["events"] = rng.choice([1, 3, 7]) | (16 if limits else 0)
         case = {"kind": "conc", "rules": [{"ns": None, "src": "\n".join(lines)}], "csymbols": csyms, "jobs": jobs,
                 "threads": threads, "mode": mode, "assign": [rng.below(threads) for _ in jobs],
                 "seed": rng.next() >> 12, "rounds": rng.range(1, 3), "base_params": base_params,
@@ -495,6 +512,42 @@ class C13(Prop):
     # ================================================================ generation: seq
     def gen_seq(self, rng, thrash):
         """sequences of different inputs on one scanner; reference = a scanner compiled for that one scan"""
+        if thrash == "entrypoint":
+            # `entrypoint` parses the headers of the scanned buffer: small ELF files of one length with different
+            # entry points (and non-executables), read one after the other into ONE buffer
+            LEN = rng.choice([256, 512, 600])
+            def elf(ep, marker):
+                import struct
+                base = 0x400000
+                f = bytes([0x7f, 0x45, 0x4c, 0x46, 2, 1, 1, 0]) + bytes(8)
+                f += struct.pack("<HHIQQQIHHHHHH", 2, 0x3e, 1, base + ep, 64, 0, 0, 64, 56, 1, 64, 0, 0)
+                f += struct.pack("<IIQQQQQQ", 1, 5, 0, base, base, LEN, LEN, 0x1000)
+                f = bytearray(f.ljust(LEN, b"\0"))
+                f[marker:marker + 5] = b"ENTRY"
+                return bytes(f)
+            def plain(marker):
+                f = bytearray(b"." * LEN)
+                f[marker:marker + 5] = b"ENTRY"
+                return bytes(f)
+            eps = [rng.range(0x80, LEN - 8) for _ in range(3)]
+            inputs = []
+            for _ in range(rng.range(3, 6)):
+                k = rng.below(4)
+                if k == 0:
+                    inputs.append(plain(rng.choice(eps)))
+                else:
+                    ep = rng.choice(eps)
+                    inputs.append(elf(ep, ep if rng.chance(2, 3) else rng.choice(eps)))
+            lines = ['rule marker_at_entrypoint { strings: $a = "ENTRY" condition: $a at entrypoint }',
+                     "rule has_entrypoint { condition: defined entrypoint }"]
+            lines += ["rule ep%d { condition: entrypoint == %d }" % (i, e) for i, e in enumerate(sorted(set(eps)))]
+            lines.append('rule near { strings: $a = "ENTRY" condition: $a in (entrypoint - 4 .. entrypoint + 4) }')
+            order = [rng.below(len(inputs)) for _ in range(rng.range(6, 12))]
+            case = {"kind": "seq", "family": "entrypoint", "rules": [{"ns": None, "src": "\n".join(lines)}],
+                    "inputs": [b.hex() for b in inputs], "order": order, "reuse_buffer": True}
+            if rng.chance(1, 4):
+                case["params"] = {"process_memory": True}
+            return case
         if thrash == "buffer":
             # ONE read buffer overwritten in place: same address (and mostly same length), different bytes; regexes
             # with a repetition left of the atom (reverse search to the start, then forward validation from it)
@@ -706,7 +759,7 @@ class C13(Prop):
             elif k == 17:
                 out.append(self.gen_seq(r, False))
             elif k == 18:
-                out.append(self.gen_seq(r, "buffer"))
+                out.append(self.gen_seq(r, "buffer" if i % 40 == 18 else "entrypoint"))
             elif i % 40 == 19:
                 out.append(self.gen_seq(r, True))             # the cache-thrashing family is the expensive one
             else:
